@@ -81,7 +81,8 @@ type Object struct {
 	Wild       bool       // stand-in for the unknown target of a loop-carried pointer: reads are arbitrary, writes are reported
 	Unmodelled bool       // slice of aggregates whose contents are not modelled: loads give fresh values
 	ElemType   types.Type // element type of an unmodelled slice
-	UFrom      *Object    // option functional-nested-slices: the unmodelled slice of slices this inner slice was read from
+	UFrom      *Object    // option functional-nested-slices: the (root) unmodelled slice of slices this inner slice was read from
+	UFun       *UFun      // ... and, when it is a slice of slices itself, the functions that stand for its rows
 	Root       string
 }
 
